@@ -80,6 +80,16 @@ CHECKS = {
             "Panel inputs are hand-chosen (each forced parameter changes the score on at least one of them); "
             "forwarding decided by inspect.signature; separation.evaluate (lists per source) is out of scope.",
             "bounded exhaustive enumeration of configurations (keyword subsets) against a bundle reference model"),
+    "C14": (FE, "DESIGN.md §5 C14",
+            "Valid side: every adapter pair state x function x configuration must return, and evaluate() of "
+            "segment / chord / hierarchy must return on a complete boundary-coincidence lattice (estimate "
+            "starting/ending before, at, after the reference span; boundary on its start/end; outside; empty; "
+            "window == frame_size). Fault side: 95 entry points x every documented single fault x every position "
+            "must raise ValueError (InvalidChordException for chord labels) and nothing else.",
+            "Only faults the task validators document are demanded; base inputs are hand-chosen valid annotations; "
+            "known pre-existing failures are listed in known_findings.json with witness predicates.",
+            "exhaustive single-fault enumeration over entry points x fault kinds x positions, plus bounded "
+            "exhaustive enumeration of valid boundary-coincidence states"),
 }
 
 NOT_YET = {}
